@@ -55,7 +55,7 @@ def make_part_array(q, ts, opts, pin_step=False):
         require(s_a == 1)
         require(s_b == 4)
         require(s_c == 5 if pin_step else (0 <= s_c <= 6))
-        require(1 <= v_a <= 3)
+        require(0 <= v_a <= 3)  # 0 is a voice the score can state (MIDI import without voices), None is "no voice"
         require(v_b == 2)
         require(-7 <= fifths <= 7)
         part = S.Part("P", quarter_duration=q)
@@ -309,7 +309,7 @@ HARNESSES = [
                  "music.rest_array_from_rest_list", "Part.notes_tied", "GenericNote.duration_tied", "Part.beat_map",
                  "Part.quarter_map", "Part.key_signature_map", "Part.time_signature_map", "Part.metrical_position_map"],
       bounds="one part, two measures, a two-note tie chain with symbolic split, a grace note, a note without voice/"
-             "staff, one rest; symbolic onsets/durations (divs), steps, voices 1..3, fifths; listed divisions, meters "
+             "staff, one rest; symbolic onsets/durations (divs), steps, voices 0..3, fifths; listed divisions, meters "
              "and include_* option tuples",
       outside="float32 rounding of the f4 columns (tolerance 1e-6); division changes inside a part"),
     H("part_list", make_part_list, _list_inst, models=MODELS, budget={"quick": 200, "thorough": 900},
